@@ -8,6 +8,20 @@ type WebSocketConn struct {
 	EventEmitter
 
 	*websocket.Conn
+
+	readLimit int64
+}
+
+// SetReadLimit sets the maximum size of a message read from the peer. The connection itself
+// counts the bytes on the wire; ReadLimit lets the reader of a compressed message apply the
+// same bound to what the message inflates to.
+func (t *WebSocketConn) SetReadLimit(limit int64) {
+	t.readLimit = limit
+	t.Conn.SetReadLimit(limit)
+}
+
+func (t *WebSocketConn) ReadLimit() int64 {
+	return t.readLimit
 }
 
 func (t *WebSocketConn) Close() error {
